@@ -16,6 +16,21 @@ def BlockedFor (ap : Api) (s : St) : Prop :=
 theorem blockedFor_wait {ap : Api} (s : St) (m : Meth) (n tp : Nat) (k : List Fr) (h : Pend ap s) :
     BlockedFor ap { s with stack := .wait m n tp :: k } := Or.inr ⟨⟨m, n, tp, k, rfl⟩, h⟩
 
+theorem runExit_blockedFor (ap : Api) (s : St) (e : Res) : BlockedFor ap (runExit s e) := by
+  left
+  simp only [runExit, closeConn, sendReq, emit]
+  repeat' split
+  all_goals rfl
+
+theorem swEnd_pend {ap : Api} (retK : St → Val → St) (hR : ∀ s' v, Pend ap s' → BlockedFor ap (retK s' v)) :
+    ∀ s' v, Pend ap s' → BlockedFor ap (swEnd retK s' v) := by
+  intro s' v hd
+  unfold swEnd
+  cases v <;> simp only []
+  all_goals first
+    | exact runExit_blockedFor _ _ _
+    | exact hR _ _ hd
+
 theorem connOpen_pend {s s1 : St} (h : connOpen s = some s1) (hd : Pend ap s) : Pend ap s1 := by
   unfold connOpen at h
   split at h
@@ -62,9 +77,9 @@ theorem describeStart_pend {ap : Api} (s : St) (rd : Nat) (fs k : List Fr) (retK
       exact startDo_pend _ _ _ _ _ _ _ _ (connOpen_pend h1 hd) (fun s' e h => hR _ _ h) (fun hf => by cases hf)
   · exact hR _ _ hd
 
-theorem setupStart_pend {ap : Api} (c : Cfg) (s : St) (a : SetupArgs) (k : List Fr)
+theorem setupStart_pend {ap : Api} (c : Cfg) (s : St) (a : SetupArgs) (fs k : List Fr)
     (retK : St → Val → St) (hd : Pend ap s) (hR : ∀ s' v, Pend ap s' → BlockedFor ap (retK s' v)) :
-    BlockedFor ap (setupStart c s a k retK) := by
+    BlockedFor ap (setupStart c s a fs k retK) := by
   unfold setupStart
   split
   · split
@@ -87,6 +102,14 @@ theorem clearSession_pend {ap : Api} (s : St) (hd : Pend ap s) : Pend ap (clearS
   have h := closeConn_pend s hd
   simpa [Pend, clearSession] using h
 
+theorem playStart_pend {ap : Api} (s : St) (fs k : List Fr) (retK : St → Val → St)
+    (hd : Pend ap s) (hR : ∀ s' v, Pend ap s' → BlockedFor ap (retK s' v)) : BlockedFor ap (playStart s fs k retK) := by
+  unfold playStart
+  split
+  · exact startDo_pend _ _ _ _ _ _ _ _ (by simpa [Pend] using hd)
+      (fun s' e h => hR _ _ (by simpa [Pend, playUndo] using h)) (fun hf => by cases hf)
+  · exact hR _ _ hd
+
 theorem afterReset_pend {ap : Api} (s : St) (n : AfterReset) (k : List Fr)
     (retK : St → Val → St) (hd : Pend ap s) (hR : ∀ s' v, Pend ap s' → BlockedFor ap (retK s' v)) :
     BlockedFor ap (afterReset s n k retK) := by
@@ -100,6 +123,8 @@ theorem afterReset_pend {ap : Api} (s : St) (n : AfterReset) (k : List Fr)
       | exact describeStart_pend _ _ _ _ _ (by simpa [Pend] using hc) hR
   | switchTcp a =>
     exact describeStart_pend _ _ _ _ _ (by simpa [Pend] using hc) hR
+  | switchAll ms =>
+    exact describeStart_pend _ _ _ _ _ (by simpa [Pend] using hc) (swEnd_pend retK hR)
 
 theorem resetStart_pend {ap : Api} (c : Cfg) (s : St) (n : AfterReset) (k : List Fr)
     (retK : St → Val → St) (hd : Pend ap s) (hR : ∀ s' v, Pend ap s' → BlockedFor ap (retK s' v)) :
@@ -121,7 +146,7 @@ theorem setupResp_pend {ap : Api} (c : Cfg) (s : St) (a : SetupArgs) (p : Proto)
   split
   · exact hR _ _ (commitSetup_pend _ _ _ _ hd)
   · exact hR _ _ hd
-  · exact setupStart_pend _ _ _ _ _ (by simpa [Pend] using hd) hR
+  · exact setupStart_pend _ _ _ _ _ _ (by simpa [Pend] using hd) hR
   · exact resetStart_pend _ _ _ _ _ (by simpa [Pend] using hd) hR
 
 theorem describeResp_pend {ap : Api} (c : Cfg) (s : St) (rd : Nat) (r : Resp) (k : List Fr)
@@ -220,8 +245,29 @@ theorem frameRet_pend {ap : Api} (c : Cfg) (f : Fr) (k : List Fr) (retK : St →
     cases v <;> simp only []
     all_goals first
       | exact hR _ _ hd
-      | exact setupStart_pend _ _ _ _ _ hd hR
+      | exact setupStart_pend _ _ _ _ _ _ hd hR
   | resetK n saved => exact afterReset_pend _ _ _ _ (by simpa [Pend] using hd) hR
+  | swDescK ms =>
+    cases v <;> simp only []
+    all_goals first
+      | exact runExit_blockedFor _ _ _
+      | (cases ms <;> simp only []
+         all_goals first
+           | exact playStart_pend _ _ _ _ hd (swEnd_pend retK hR)
+           | exact setupStart_pend _ _ _ _ _ _ hd (swEnd_pend retK hR))
+  | swSetupK rest =>
+    cases v <;> simp only []
+    all_goals first
+      | exact runExit_blockedFor _ _ _
+      | (cases rest <;> simp only []
+         all_goals first
+           | exact playStart_pend _ _ _ _ hd (swEnd_pend retK hR)
+           | exact setupStart_pend _ _ _ _ _ _ hd (swEnd_pend retK hR))
+  | swPlayK =>
+    cases v <;> simp only []
+    all_goals first
+      | exact runExit_blockedFor _ _ _
+      | exact hR _ _ hd
 
 
 end Rtsp.ClientSm
